@@ -29,7 +29,7 @@ QUERIES = ['sp-real-fp', 'sp-real-newton', 'sp-real-linear', 'sp-log-fp', 'sp-lo
 
 
 def plan(tier, seed):
-    return dict(n=300 if tier == 'quick' else 10000, budget_s=80 if tier == 'quick' else 800, case_timeout=200)
+    return dict(n=450 if tier == 'quick' else 10000, budget_s=80 if tier == 'quick' else 800, case_timeout=200)
 
 
 def tensor_state(t):
